@@ -229,7 +229,16 @@ Definition mon_C09 : monitor := fun L s st s' =>
        native_exact l0 n0 funds && native_exact l1 n1 funds &&
        forallb (fun la => match fst la with
                           | ANative d => s_bank L s' p d =? s_bank L s p d + snd la
-                          | AToken _ => true end) [(l0, n0); (l1, n1)]
+                          | AToken _ => true end) [(l0, n0); (l1, n1)] &&
+       (* "never credits native value that was not attached": on a pool with supply, the LP minted is covered by the
+          coins actually attached in each native pool asset: m * reserve_d <= attached_d * supply *)
+       (let lp := s_pair L s p 7 in
+        let S0 := s_supply L s lp in
+        let m := s_supply L s' lp - S0 in
+        if S0 =? 0 then true else
+        forallb (fun a => match a with
+                          | ANative d => m * s_bank L s p d <=? coins_of d funds * S0
+                          | AToken _ => true end) [s_pair_asset L s p 0; s_pair_asset L s p 1])
    | OSwap p c funds offer amount _ _ _ => native_exact offer amount funds
    | OPairReceive p c funds _ _ (HSwap offer amount _ _ _) => native_exact offer amount funds
    | _ => true
